@@ -10,13 +10,13 @@ def l2Init : L2State := []
 def l2Lookup (ss : L2State) (sid : String) : Option St := (ss.find? (fun p => p.1 == sid)).map (·.2)
 def l2Set (ss : L2State) (sid : String) (s : St) : L2State := (sid, s) :: (ss.filter (fun p => p.1 != sid)).take 4
 
-def l2KindName (k : Nat) : String := if k = 0 then "d" else if k = 1 then "w" else if k = 2 then "s" else "t"
-def l2Kind (t : String) : Option Nat := if t = "d" then some 0 else if t = "w" then some 1 else if t = "s" then some 2 else if t = "t" then some 3 else none
+def l2KindName (k : Nat) : String := if k = 0 then "d" else if k = 1 then "w" else if k = 2 then "s" else if k = 3 then "t" else "i"
+def l2Kind (t : String) : Option Nat := if t = "d" then some 0 else if t = "w" then some 1 else if t = "s" then some 2 else if t = "t" then some 3 else if t = "i" then some 4 else none
 
 def l2Digest (s : St) : String :=
   let us := (List.range 3).map (fun u => let x := s.users u; s!"{u}:{x.long}:{x.short}:{x.mt}")
-  -- same order as the harness' BTreeMap<(u8, char, u8)>: kinds sorted by character d < s < t < w
-  let ds := (List.range 3).flatMap (fun u => [0, 2, 3, 1].flatMap (fun k => (List.range 3).filterMap (fun i =>
+  -- same order as the harness' BTreeMap<(u8, char, u8)>: kinds sorted by character d < i < s < t < w
+  let ds := (List.range 3).flatMap (fun u => [0, 4, 2, 3, 1].flatMap (fun k => (List.range 3).filterMap (fun i =>
     (s.acts u k i).map (fun (x : Act) => s!"{u}.{l2KindName k}.{i}:{x.state}:{x.escLong}:{x.escShort}:{x.escMt}:r{x.receiver}"))))
   s!"now={s.now} users=[{",".intercalate us}] acts=[{",".intercalate ds}] vault={s.vaultLong}:{s.vaultShort} rec={s.recLong}:{s.recShort} supply={supply s}"
 
@@ -52,14 +52,14 @@ def l2Engine (ss : L2State) (args : List String) : L2State × String :=
     | some s, some (u, k, i), some [a, b], [f, el, rc] =>
       match pBool f, pNat el, pNat rc with
       | some f, some el, some rc =>
-        if el ≤ 50000000 && a < 2 ^ 64 && b < 2 ^ 64 && (k = 0 || b = 0) && rc < 3 then l2Reply ss sid s (create s u k i a b f el rc) else (ss, "bad-op")
+        if el ≤ 50000000 && a < 2 ^ 64 && b < 2 ^ 64 && (k = 0 || k = 4 || b = 0) && (k != 4 || b ≤ 100000000) && rc < 3 then l2Reply ss sid s (create s u k i a b f el rc) else (ss, "bad-op")
       | _, _, _ => (ss, "bad-op")
     | _, _, _, _ => (ss, "bad-op")
   | ["exec", sid, who, id, fee, throw, fl, x, y] =>
-    match l2Lookup ss sid, l2Who who, l2Id id, allNat [fee, x, y], pBool throw, pBool fl with
+    match l2Lookup ss sid, l2Who who, l2Id id, allNat [fee, x, y], pBool throw, pNat fl with
     | some s, some who, some (u, k, i), some [fee, x, y], some throw, some fl =>
-      if fee < 2 ^ 64 && x < 2 ^ 64 && y < 2 ^ 64 then
-        match exec s who u k i fee throw fl x y with
+      if fee < 2 ^ 64 && x < 2 ^ 64 && y < 2 ^ 64 && (fl < 2 || (fl = 2 && k = 4)) then
+        match exec s who u k i fee throw (fl = 1) x y (fl = 2) with
         | some (s', o, paid) =>
           (l2Set ss sid s', s!"ok {if o = Outcome.completed then "completed" else "cancelled"} fee={paid} | {l2Digest s'}")
         | none => (ss, s!"err | {l2Digest s}")
